@@ -25,8 +25,12 @@ var migrations = [dbVersion]MigrationStep{
 		it := txn.NewIterator(badger.DefaultIteratorOptions)
 		defer it.Close()
 		for it.Seek(prefix); it.ValidForPrefix(prefix); it.Next() {
-			key := it.Item().Key()
-			txn.Delete(key)
+			// Key() is only valid until the iterator moves on, and the
+			// transaction keeps the slice until it commits.
+			key := it.Item().KeyCopy(nil)
+			if err := txn.Delete(key); err != nil {
+				return err
+			}
 		}
 
 		return setVersion(txn, 2)
